@@ -281,3 +281,115 @@ Theorem C10_source_constants :
   Gen.Consts.rlp_maxInt32 = Z.of_N Rlp.Model.maxInt32.
 Proof. vm_compute. repeat split; reflexivity. Qed.
 Print Assumptions C10_source_constants.
+
+(* 10. (round 5) Soundness for EVERY chain id.  Theorems 2, 5 and 7 assume 0 <= chain < 2^63.  The upper
+      bound is the type of the parameter (Go int64); here the lower bound goes too, so the hypothesis
+      left is the range of the parameter's type and nothing else.  For every chain id of the int64
+      range, whenever an address is returned:
+      - legacy input: the V element is a string (a list is refused); (r,s) of the input verify over
+        H(payload) for a key with the returned address; with V the integer written in the input,
+        either V = 27/28 (+ k*2^64) and the payload is the original-format preimage of the returned
+        fields, or V = 35 + 2*chain + parity (+ k*2^64, chain with its sign) and the payload is the
+        EIP-155 preimage of the returned fields for the chain id |chain| (the code writes
+        big.NewInt(chainID).Bytes(), the magnitude; for 0 <= chain this is theorem 2 word for word);
+      - type-0x02 input: as theorem 2 (the supplied chain id is then necessarily non-negative).
+      The "+ k*2^64" is the Int64() reduction of V; theorem 12 shows when it is vacuous. *)
+From FFS Require Import Tx.RecoverProofs4.
+Theorem C10_sound_every_chain_partial :
+  forall (H : bytes -> bytes) (RD : sigdata -> bytes -> Z -> res bytes)
+         (PubKey : Type) (addr_of : PubKey -> bytes) (verify : PubKey -> bytes -> Z -> Z -> Prop),
+    (forall v r s d c a, RD (v, r, s) d c = Ok a -> exists q, a = addr_of q /\ verify q d r s) ->
+    forall bs chain a t p, (- 2 ^ 63 <= chain < 2 ^ 63)%Z ->
+      RecoverRawTransaction H RD bs chain = Ok (a, t, p) ->
+      (exists l pos vb e7 e8 q,
+        Decode bs = Ok (Some (Lst l), pos) /\
+        nth_error l 6 = Some (Str vb) /\ nth_error l 7 = Some e7 /\ nth_error l 8 = Some e8 /\
+        a = addr_of q /\ verify q (H p) (Z.of_N (elem_int e7)) (Z.of_N (elem_int e8)) /\
+        ( (V_original (Z.of_N (of_be vb)) /\ p = spec_preimage Original (norm t) 0) \/
+          (~ V_original (Z.of_N (of_be vb)) /\ V_eip155 (Z.of_N (of_be vb)) chain /\
+           p = spec_preimage Eip155 (norm t) (Z.abs_N chain)) ))
+      \/
+      (exists rest l pos c0 al e10 e11 q,
+        (0 <= chain)%Z /\
+        bs = x02 :: rest /\ Decode rest = Ok (Some (Lst l), pos) /\
+        nth_error l 0 = Some (Str c0) /\ Z.of_N (of_be c0) = chain /\
+        nth_error l 8 = Some (Lst al) /\ nth_error l 10 = Some e10 /\ nth_error l 11 = Some e11 /\
+        a = addr_of q /\ verify q (H p) (Z.of_N (elem_int e10)) (Z.of_N (elem_int e11)) /\
+        p = x02 :: RLP (L (eip1559_body_al (norm t) (Z.abs_N chain) (L (map to_tree al))))).
+Proof. exact RecoverRaw_exact. Qed.
+Print Assumptions C10_sound_every_chain_partial.
+
+Theorem C10_sound_legacy_entry_every_chain :
+  forall (H : bytes -> bytes) (RD : sigdata -> bytes -> Z -> res bytes)
+         (PubKey : Type) (addr_of : PubKey -> bytes) (verify : PubKey -> bytes -> Z -> Z -> Prop),
+    (forall v r s d c a, RD (v, r, s) d c = Ok a -> exists q, a = addr_of q /\ verify q d r s) ->
+    forall bs chain a t p, (- 2 ^ 63 <= chain < 2 ^ 63)%Z ->
+      RecoverLegacyRawTransaction H RD bs chain = Ok (a, t, p) ->
+      exists l pos vb e7 e8 q,
+        Decode bs = Ok (Some (Lst l), pos) /\
+        nth_error l 6 = Some (Str vb) /\ nth_error l 7 = Some e7 /\ nth_error l 8 = Some e8 /\
+        a = addr_of q /\ verify q (H p) (Z.of_N (elem_int e7)) (Z.of_N (elem_int e8)) /\
+        ( (V_original (Z.of_N (of_be vb)) /\ p = spec_preimage Original (norm t) 0) \/
+          (~ V_original (Z.of_N (of_be vb)) /\ V_eip155 (Z.of_N (of_be vb)) chain /\
+           p = spec_preimage Eip155 (norm t) (Z.abs_N chain)) ).
+Proof. exact RecoverLegacy_exact. Qed.
+Print Assumptions C10_sound_legacy_entry_every_chain.
+
+(* 11. The same with C05's secp256k1 layer for [RD]: no hypothesis about RecoverDirect, every chain id
+       of the int64 range. *)
+Theorem C10_sound_secp256k1_every_chain_partial :
+  forall (o : Crypto.Ecdsa.group_ops), Crypto.Ecdsa.laws o ->
+  forall (H : bytes -> bytes), (forall x, length (H x) = 32%nat) ->
+    forall bs chain a t p, (- 2 ^ 63 <= chain < 2 ^ 63)%Z ->
+      RecoverRawTransaction H (RD_secp o H) bs chain = Ok (a, t, p) ->
+      (exists l pos vb e7 e8 q,
+        Decode bs = Ok (Some (Lst l), pos) /\
+        nth_error l 6 = Some (Str vb) /\ nth_error l 7 = Some e7 /\ nth_error l 8 = Some e8 /\
+        a = secp_addr_of o H q /\
+        secp_verify o q (H p) (Z.of_N (elem_int e7)) (Z.of_N (elem_int e8)) /\
+        ( (V_original (Z.of_N (of_be vb)) /\ p = spec_preimage Original (norm t) 0) \/
+          (~ V_original (Z.of_N (of_be vb)) /\ V_eip155 (Z.of_N (of_be vb)) chain /\
+           p = spec_preimage Eip155 (norm t) (Z.abs_N chain)) ))
+      \/
+      (exists rest l pos c0 al e10 e11 q,
+        (0 <= chain)%Z /\
+        bs = x02 :: rest /\ Decode rest = Ok (Some (Lst l), pos) /\
+        nth_error l 0 = Some (Str c0) /\ Z.of_N (of_be c0) = chain /\
+        nth_error l 8 = Some (Lst al) /\ nth_error l 10 = Some e10 /\ nth_error l 11 = Some e11 /\
+        a = secp_addr_of o H q /\
+        secp_verify o q (H p) (Z.of_N (elem_int e10)) (Z.of_N (elem_int e11)) /\
+        p = x02 :: RLP (L (eip1559_body_al (norm t) (Z.abs_N chain) (L (map to_tree al))))).
+Proof. exact exact_secp. Qed.
+Print Assumptions C10_sound_secp256k1_every_chain_partial.
+
+(* 12. When the Int64() reduction of V is vacuous: for a V element of at most 8 bytes (V < 2^64) and
+       0 <= chain <= 2^63 - 19 - every chain id for which 36 + 2*chain is below 2^64 - the accepted
+       values are exactly V = 27, 28 (original form) and V = 35 + 2*chain, 36 + 2*chain (EIP-155);
+       [V_original] / [V_eip155] are by definition the statements of theorem 8 (C10_legacy_v_meaning). *)
+Theorem C10_legacy_v_exact :
+  forall vb chain,
+    let V := Z.of_N (of_be vb) in
+    (length vb <= 8)%nat -> (0 <= chain <= 2 ^ 63 - 19)%Z ->
+    (V_original V <-> V = 27 \/ V = 28)%Z /\
+    (V_eip155 V chain <-> V = 35 + 2 * chain \/ V = 36 + 2 * chain)%Z.
+Proof. exact (fun vb chain L => legacy_v_exact vb chain (short_v_below vb L)). Qed.
+Print Assumptions C10_legacy_v_exact.
+
+(* theorem 10 is not vacuous outside the range of theorem 2: the most negative chain id, -2^63, with
+   V = 35 (= 35 + 2*(-2^63) + 2^64) is accepted and the payload is the EIP-155 preimage of the
+   returned fields for the chain id 2^63 = |chain|; chain -1 with V = 33 likewise for chain id 1 *)
+Example C10_nonvacuous_every_chain :
+  let bs := [xc9; x01; x02; x03; x80; x04; x80; x23; x01; x01] in
+  let bs' := [xc9; x01; x02; x03; x80; x04; x80; x21; x01; x01] in
+  (exists a t p, RecoverRawTransaction H_triv RD_triv bs (- 2 ^ 63) = Ok (a, t, p) /\
+     p = spec_preimage Eip155 (norm t) (2 ^ 63) /\ V_eip155 35 (- 2 ^ 63) /\ ~ V_original 35) /\
+  (exists a t p, RecoverRawTransaction H_triv RD_triv bs' (-1) = Ok (a, t, p) /\
+     p = spec_preimage Eip155 (norm t) 1 /\ V_eip155 33 (-1)).
+Proof.
+  cbv zeta. split.
+  - do 3 eexists. split; [vm_compute; reflexivity|]. split; [vm_compute; reflexivity|]. split.
+    + exists 0%Z, 1%Z. split; [auto|reflexivity].
+    + intros [p [k [Hp E]]]. lia.
+  - do 3 eexists. split; [vm_compute; reflexivity|]. split; [vm_compute; reflexivity|].
+    exists 0%Z, 0%Z. split; [auto|reflexivity].
+Qed.
